@@ -1,13 +1,24 @@
 package cmd
 
 import (
+	"errors"
 	"os"
 	"path/filepath"
 )
 
+// an empty argument names nothing; in particular it is not the working tree itself
+func errIfEmptyPath(args []string) error {
+	for _, arg := range args {
+		if arg == "" {
+			return errors.New("fatal: empty string is not a valid pathspec")
+		}
+	}
+	return nil
+}
+
 // toWorkTreePaths rewrites path arguments the way paths are stored in the index: relative to
 // the current directory, whatever spelling (absolute, "dir/../dir/file", "../here/file") was used.
-// An empty argument is left as it is (it names nothing).
+// An empty argument is left as it is (it names nothing and is refused by errIfEmptyPath).
 func toWorkTreePaths(args []string) []string {
 	curPath, err := os.Getwd()
 	if err != nil {
